@@ -9,6 +9,8 @@ rules, kernels, ADEV transform, state) produced the jaxpr; only Seed's key-split
 samplers are stubbed.
 """
 
+from . import world  # first: puts $VERIF_REPO/src in front and loads the JAX adapter before genjax
+
 import numpy as np
 import jax
 import jax.numpy as jnp
